@@ -29,6 +29,9 @@ type FLevel struct {
 	Before bool   `json:"before,omitempty"` // an entry sorting before "spokfile"
 	After  bool   `json:"after,omitempty"`  // an entry sorting after "spokfile"
 	Spok   string `json:"spok,omitempty"`   // "" | "file" | "dir"
+	// Variant: a regular file whose name differs from "spokfile" only in letter case ("Spokfile", "SPOKFILE");
+	// on a case-sensitive file system it is not the spokfile (upper case sorts before lower case)
+	Variant string `json:"variant,omitempty"`
 }
 
 type findScen struct{}
@@ -56,6 +59,9 @@ func (findScen) Gen(r *Rng, cfg GenConfig) any {
 			l.Spok = "file"
 		case 2:
 			l.Spok = "dir"
+		}
+		if r.Chance(1, 10) {
+			l.Variant = Pick(r, []string{"Spokfile", "SPOKFILE", "SpokFile"})
 		}
 		c.Levels = append(c.Levels, l)
 	}
@@ -109,6 +115,10 @@ func (findScen) Exec(w *World, cc any, prop string) *Result {
 		}
 		if l.After {
 			writeFile(filepath.Join(d, "zzz"), "x")
+		}
+		if l.Variant != "" {
+			writeFile(filepath.Join(d, l.Variant), strings.Replace(findSpokfile, "hello", "variant", -1))
+			res.count("fault_present:case_variant_of_spokfile")
 		}
 		switch l.Spok {
 		case "file":
@@ -331,6 +341,9 @@ func (findScen) Shrinks(cc any) []any {
 		}
 		if l.Spok != "" {
 			add(func(n *FindCase) { n.Levels[i].Spok = "" })
+		}
+		if l.Variant != "" {
+			add(func(n *FindCase) { n.Levels[i].Variant = "" })
 		}
 	}
 	if c.Gone {
